@@ -55,6 +55,7 @@ type FuncContract struct {
 	Ghost      []GhostUpdate
 	Notes      []string
 	Inst       []Clause // instantiation hints (integer shift terms)
+	Prune      bool // ask the solver about every conditional edge and do not follow refuted ones
 	Dispatch   map[string]Clause // interface type key -> concrete type: invokes on that interface are calls of the concrete method (obligation: the dynamic type is that type)
 	Check      []string // if set: the only safety obligation kinds generated for this function
 	Returns    []*CallSiteSpec // `at return #N assert …`: checked at the N-th return statement (source order)
@@ -278,6 +279,8 @@ func (c *Contracts) LoadFile(path, pkg string) error {
 				cur.Dispatch = map[string]Clause{}
 			}
 			cur.Dispatch[w[1]] = cl
+		case "prune":
+			cur.Prune = true
 		case "pure":
 			cur.Pure = true
 		case "trusted":
